@@ -397,6 +397,72 @@ register(PropertySpec(
 ))
 
 
+from . import lazy
+
+register(PropertySpec(
+    id="C07",
+    title="evaluation is demand-driven and consumes lazily supplied domains only as needed",
+    rules=[
+        Rule("GEN-ENTRY", lazy.rule_gen_entry, 10,
+             "An.evaluate is a generator function; no construction-time function iterates or pulls from the supplied domain"),
+        Rule("LAZY-TAINT", lazy.rule_lazy_taint, 25,
+             "taint analysis: evaluation streams and the supplied domain never reach an eager consumer (list/sorted/len/…, "
+             "comprehensions, *-unpacking, `in`, itertools.product, loops that hand nothing out before finishing), except "
+             "the frozen aggregation exceptions"),
+        Rule("MEMO-ON-PULL", lazy.rule_memo_on_pull, 3,
+             "the raw lazily-consumed source is read only inside HashedIterable; every loop over it stores the pulled "
+             "element into `values` before handing it out; the source is wrapped lazily"),
+    ],
+    explanation="Laziness is preserved iff nothing on the path from the user's domain to the user's next() materialises a "
+                "stream. That is a may-materialise taint analysis over every function that handles evaluation streams or "
+                "the domain. Not decided: the exact count 'prefix ending at the k-th qualifying element' (a look-ahead of "
+                "one that uses none of the listed sinks is invisible).",
+    assumptions=["a bare next() inside a generator body followed by a yield is streaming, not a drain"],
+    design_ref="DESIGN.md §2 C07",
+))
+
+
+from . import infer as infer_rules
+
+register(PropertySpec(
+    id="C11",
+    title="rule inference builds one instance per satisfying binding, from that binding",
+    rules=[
+        Rule("INFER-THREAD", infer_rules.rule_infer_thread, 2,
+             "the evaluation sites of constructor arguments receive the current binding (BIND-THREAD instances)"),
+        Rule("INFER-ONE-PER-BINDING", infer_rules.rule_infer_one, 3,
+             "the construction self._type_(**…) runs exactly once per argument combination (counting domain over the "
+             "CFG), and for an inferred variable the registry is never consulted instead (abstract interpretation with "
+             "_is_inferred_ = True)"),
+        Rule("ID-KEEP", infer_rules.rule_id_keep, 10,
+             "constructor keyword values are the .value of the bound HashedValues; every copy() in the package takes a "
+             "binding dict, never a user object"),
+    ],
+    explanation="All clauses are weak but necessary: arguments evaluated under the current binding, one construction "
+                "per combination, no retrieval instead of construction for inferred variables, existing objects passed "
+                "by identity. Not decided: that the right fields receive the right values for nested heads (data flow "
+                "through runtime dictionaries).",
+    assumptions=["C04 EVAL-STATE-RESET / C12 for which conclusions are applied"],
+    design_ref="DESIGN.md §2 C11",
+))
+
+register(PropertySpec(
+    id="C18",
+    title="meaning-preserving rewrites of a query do not change its result set",
+    rules=[
+        Rule("OPDEN", opden.rule_opden, 8,
+             "mirroring a comparison (5 < x reaches x.__gt__(5) and denotes x > 5) and contains(c, i) vs in_(i, c) "
+             "have the same denotation"),
+    ],
+    explanation="Two of the six listed rewrites are decided: mirrored comparisons and contains/in_, by the OPDEN "
+                "denotation rule (C01). Commutativity/associativity of and/or, declaration/selection order and domain "
+                "permutation are equalities between evaluations that take different paths through the same generators "
+                "on runtime data; there is no syntactic normal form to compare - NOT decided.",
+    assumptions=["Python's reflection protocol for comparison operators"],
+    design_ref="DESIGN.md §2 C18",
+))
+
+
 def _attach_sensitivity():
     from ..props import SPECS
     from .. import variants
